@@ -1805,19 +1805,28 @@ let opt_node_eqb a b =
   | Some x -> bytes_eqb x b
   | None -> false
 
+(** val scope_restat : edge -> edge **)
+
+let scope_restat e =
+  { e_outs = e.e_outs; e_nimp_out = e.e_nimp_out; e_ins = e.e_ins; e_nimp =
+    e.e_nimp; e_noo = e.e_noo; e_dyndep = e.e_dyndep; e_scope = (Scope (Some
+    true)); e_rule_restat = e.e_rule_restat }
+
 (** val set_restat : graph -> nat -> graph **)
 
 let set_restat g i =
+  { g_edges = (update_nth i scope_restat g.g_edges); g_file_restat =
+    g.g_file_restat }
+
+(** val set_restat_old : graph -> nat -> graph **)
+
+let set_restat_old g i =
   match nth_error g.g_edges i with
   | Some e ->
     (match e.e_scope with
      | NoScope -> { g_edges = g.g_edges; g_file_restat = (Some true) }
      | Scope _ ->
-       { g_edges =
-         (update_nth i (fun e0 -> { e_outs = e0.e_outs; e_nimp_out =
-           e0.e_nimp_out; e_ins = e0.e_ins; e_nimp = e0.e_nimp; e_noo =
-           e0.e_noo; e_dyndep = e0.e_dyndep; e_scope = (Scope (Some true));
-           e_rule_restat = e0.e_rule_restat }) g.g_edges); g_file_restat =
+       { g_edges = (update_nth i scope_restat g.g_edges); g_file_restat =
          g.g_file_restat })
   | None -> g
 
@@ -1936,6 +1945,45 @@ let load_dyndep g f stmts =
        if forallb (stmt_used g f oe) stmts then Ok g' else Err E_not_bound
      | Err e -> Err e)
 
+(** val update_edge_old : graph -> nat -> dd_stmt -> graph result **)
+
+let update_edge_old g i st =
+  let g1 = if st.dd_restat then set_restat_old g i else g in
+  (match add_outs g1 i st.dd_imp_outs with
+   | Ok g2 ->
+     Ok { g_edges =
+       (update_nth i (fun e -> splice_ins e st.dd_imp_ins) g2.g_edges);
+       g_file_restat = g2.g_file_restat }
+   | Err e -> Err e)
+
+(** val load_edges_old :
+    graph -> node -> dd_stmt list -> nat list -> graph -> graph result **)
+
+let rec load_edges_old g0 f stmts oe g =
+  match oe with
+  | [] -> Ok g
+  | i :: oe' ->
+    if negb (bound_to g0 f i)
+    then load_edges_old g0 f stmts oe' g
+    else (match find_stmt g0 stmts i with
+          | Some st ->
+            (match update_edge_old g i st with
+             | Ok g' -> load_edges_old g0 f stmts oe' g'
+             | Err e -> Err e)
+          | None -> Err E_not_mentioned)
+
+(** val load_dyndep_old : graph -> node -> dd_stmt list -> graph result **)
+
+let load_dyndep_old g f stmts =
+  match check_stmts g [] stmts with
+  | Some e -> Err e
+  | None ->
+    let oe = out_edges g f in
+    (match load_edges_old g f stmts oe g with
+     | Ok g' ->
+       if forallb (stmt_used g f oe) stmts then Ok g' else Err E_not_bound
+     | Err e -> Err e)
+
 (** val dyndep_load : graph -> node -> bytes option -> graph result **)
 
 let dyndep_load g f = function
@@ -1944,11 +1992,6 @@ let dyndep_load g f = function
    | Ok stmts -> load_dyndep g f stmts
    | Err e -> Err e)
 | None -> Err E_loading
-
-(** val ub_self_input : node -> dd_stmt list -> bool **)
-
-let ub_self_input f stmts =
-  existsb (fun st -> mem_bytes f st.dd_imp_ins) stmts
 
 (** val apply_stmt : edge -> dd_stmt -> edge **)
 
